@@ -146,6 +146,14 @@ def body_inflated(p, lens):
     return body(inflate(list(p), list(lens)), [list(p), list(lens)])
 
 
+def body_star(k):
+    return body(star(k), ["star", k])
+
+
+def body_concat(a, b):
+    return body(concat(list(a), list(b)), ["concat", list(a), list(b)])
+
+
 def replay(rec):
     import harness.e1_common as ec
     saved = ec.known_keys
